@@ -232,6 +232,9 @@ def run_property(prop, tier=None, seed=None):
     if merged["distinct_nontrivial"] < 2 or merged["evaluations"] < 1:
         inconc.append("too few non-trivial cases (%d)" % merged["distinct_nontrivial"])
 
+    if os.environ.get("RV_DUMP_VIOLATIONS"):
+        with open(os.environ["RV_DUMP_VIOLATIONS"], "w") as f:
+            json.dump(merged["violations"], f, ensure_ascii=False, indent=0)
     known = load_known()
     known_hit, unknown = {}, []
     for v in merged["violations"]:
